@@ -5,6 +5,7 @@ mod net_c03;
 mod net_c04;
 mod net_c12;
 mod net_srv;
+mod net_shut;
 mod net_stall;
 mod net_tls;
 mod sim;
@@ -32,6 +33,7 @@ fn main() {
         "c12" => net_c12::main(&args[1..]),
         "srv" => net_srv::main(&args[1..]),
         "stall" => net_stall::main(&args[1..]),
+        "shut" => net_shut::main(&args[1..]),
         "tls" => net_tls::main(&args[1..]),
         "ps" => sim_ps::main(&args[1..]),
         "rr" => sim_rr::main(&args[1..]),
